@@ -802,7 +802,7 @@ def apply_fn(fn, x):
                 return Rat.const(0) if re_ > 0 else PI
             if re_ == 0 and im_ != 0:
                 return PI * Rat.const(Fr(1, 2) if im_ > 0 else Fr(-1, 2))
-    if fn in ('acos', 'asin', 'atan', 'ceil', 'floor', 'sign', 'clip', 'phase'):
+    if fn in ('acos', 'asin', 'atan', 'ceil', 'floor', 'sign', 'clip', 'phase', 'round'):
         return Rat(Poly.atom(fn_atom(fn, x)))
     raise Undecidable('function %s' % fn)
 
